@@ -290,6 +290,35 @@ def appendBasedOnParentNode (d : Dom) (element prevElement : Id) (child : NodeOr
   if e.parent.isSome then d.appendBeforeSibling element child
   else d.append prevElement child
 
+/-! **DEFECT SWITCH 2** (found by C20): `append_before_sibling` computes the sibling's index *before* it
+detaches the new node from its old parent (lib.rs:450 vs 478), so a node that is an earlier child
+of the same parent lands one position too far (after the sibling).  `.asCode` is the code as it
+stands (`Dom.appendBeforeSibling` above); `.detachFirst` is the repaired order (detach, then look
+the index up).  **Flip `beforeSiblingVariant` to `.detachFirst` once /repo is repaired.** -/
+inductive BeforeSiblingVariant where
+  | asCode | detachFirst
+deriving Repr, DecidableEq
+
+/-- ← switch 2 -/
+def beforeSiblingVariant : BeforeSiblingVariant := .asCode
+
+def preDetach (b : BeforeSiblingVariant) (d : Dom) : NodeOrText → Except String Dom
+  | .node c => match b with
+    | .asCode => .ok d
+    | .detachFirst => d.removeFromParent c
+  | .text _ => .ok d
+
+def appendBeforeSiblingV (b : BeforeSiblingVariant) (d : Dom) (sibling : Id) (child : NodeOrText) :
+    Except String Dom := do
+  let d ← preDetach b d child
+  d.appendBeforeSibling sibling child
+
+def appendBasedOnParentNodeV (b : BeforeSiblingVariant) (d : Dom) (element prevElement : Id)
+    (child : NodeOrText) : Except String Dom := do
+  let e ← d.get element
+  if e.parent.isSome then appendBeforeSiblingV b d element child
+  else d.append prevElement child
+
 /-- `append_doctype_to_document` (lib.rs:501) -/
 def appendDoctypeToDocument (d : Dom) (name pubId sysId : Str) : Except String Dom :=
   let (d, id) := d.alloc (.doctype name pubId sysId)
@@ -549,8 +578,9 @@ namespace Dom
 /-- Run one sink call on the model of RcDom.  `.error site` = the Rust panics (or diverges) there.
 The methods RcDom does not override (`mark_script_already_started`, `pop`, `associate_with_form`,
 `set_current_line`, `allow_declarative_shadow_roots`, `attach_declarative_shadow`) have the trait's
-default behaviour.  `v` selects the behaviour of the selectedcontent cloning (see `cloneVariant`). -/
-def applyV (v : CloneVariant) (d : Dom) : SinkOp → Except String (Dom × Output)
+default behaviour.  `v` selects the behaviour of the selectedcontent cloning (see `cloneVariant`), `b` that of
+`append_before_sibling` (see `beforeSiblingVariant`). -/
+def applyV (v : CloneVariant) (b : BeforeSiblingVariant) (d : Dom) : SinkOp → Except String (Dom × Output)
   | .parseError msg => .ok (d.parseError msg, .unit)
   | .getDocument => .ok (d, .node document)
   | .elemName t => do let (ns, loc) ← d.elemName t; .ok (d, .name ns loc)
@@ -558,14 +588,14 @@ def applyV (v : CloneVariant) (d : Dom) : SinkOp → Except String (Dom × Outpu
   | .createComment text => let (d, id) := d.createComment text; .ok (d, .node id)
   | .createPi target data => let (d, id) := d.createPi target data; .ok (d, .node id)
   | .append p c => do let d ← d.append p c; .ok (d, .unit)
-  | .appendBasedOnParentNode e p c => do let d ← d.appendBasedOnParentNode e p c; .ok (d, .unit)
+  | .appendBasedOnParentNode e p c => do let d ← d.appendBasedOnParentNodeV b e p c; .ok (d, .unit)
   | .appendDoctypeToDocument n p s => do let d ← d.appendDoctypeToDocument n p s; .ok (d, .unit)
   | .markScriptAlreadyStarted _ => .ok (d, .unit)
   | .pop _ => .ok (d, .unit)
   | .getTemplateContents t => do let tc ← d.getTemplateContents t; .ok (d, .node tc)
   | .sameNode x y => .ok (d, .bool (d.sameNode x y))
   | .setQuirksMode m => .ok (d.setQuirksMode m, .unit)
-  | .appendBeforeSibling s c => do let d ← d.appendBeforeSibling s c; .ok (d, .unit)
+  | .appendBeforeSibling s c => do let d ← d.appendBeforeSiblingV b s c; .ok (d, .unit)
   | .addAttrsIfMissing t a => do let d ← d.addAttrsIfMissing t a; .ok (d, .unit)
   | .associateWithForm _ _ _ _ => .ok (d, .unit)
   | .removeFromParent t => do let d ← d.removeFromParent t; .ok (d, .unit)
@@ -577,8 +607,8 @@ def applyV (v : CloneVariant) (d : Dom) : SinkOp → Except String (Dom × Outpu
   | .attachDeclarativeShadow _ _ _ => .ok (d, .bool false)
   | .maybeCloneAnOptionIntoSelectedcontent o => do let d ← d.maybeCloneOption v o; .ok (d, .unit)
 
-/-- Run one sink call on the model of RcDom *as it stands* (`cloneVariant`). -/
-def apply (d : Dom) (op : SinkOp) : Except String (Dom × Output) := d.applyV cloneVariant op
+/-- Run one sink call on the model of RcDom *as it stands* (`cloneVariant`, `beforeSiblingVariant`). -/
+def apply (d : Dom) (op : SinkOp) : Except String (Dom × Output) := d.applyV cloneVariant beforeSiblingVariant op
 
 /-- run a sequence of calls, collecting the outputs; stops at the first panic -/
 def applyAll (d : Dom) : List SinkOp → Except String (Dom × List Output)
